@@ -2,6 +2,7 @@ package server
 
 import (
 	"encoding/base64"
+	"github.com/cbeuw/Cloak/internal/verifhook"
 	"sync"
 	"sync/atomic"
 	"time"
@@ -95,6 +96,7 @@ func (panel *userPanel) TerminateActiveUser(user *ActiveUser, reason string) {
 	}).Info("Terminating active user")
 	panel.updateUsageQueueForOne(user)
 	user.closeAllSessions(reason)
+	verifhook.Point("panel.Terminate.beforeDelete")
 	panel.activeUsersM.Lock()
 	delete(panel.activeUsers, user.arrUID)
 	panel.activeUsersM.Unlock()
@@ -117,6 +119,7 @@ type usagePair struct {
 // updateUsageQueue zeroes the accumulated usage all ActiveUsers valve and put the usage data im usageUpdateQueue
 func (panel *userPanel) updateUsageQueue() {
 	panel.activeUsersM.Lock()
+	verifhook.Point("panel.updateUsageQueue.mid")
 	panel.usageUpdateQueueM.Lock()
 	for _, user := range panel.activeUsers {
 		if user.bypass {
@@ -185,6 +188,7 @@ func (panel *userPanel) commitUpdate() error {
 	}
 	panel.usageUpdateQueue = make(map[[16]byte]*usagePair)
 	panel.usageUpdateQueueM.Unlock()
+	verifhook.Point("panel.commitUpdate.collected")
 
 	if len(statuses) == 0 {
 		return nil
